@@ -4,6 +4,12 @@ use std::cell::RefCell;
 
 thread_local! {
     static LAST: RefCell<(String, String)> = RefCell::new((String::new(), String::new()));
+    static ALL: RefCell<Vec<(String, String)>> = const { RefCell::new(Vec::new()) };
+}
+
+/// All panics recorded on this thread since the last call (including ones a runtime caught).
+pub fn take_all() -> Vec<(String, String)> {
+    ALL.with(|a| std::mem::take(&mut *a.borrow_mut()))
 }
 
 pub fn install() {
@@ -20,6 +26,12 @@ pub fn install() {
             .cloned()
             .or_else(|| info.payload().downcast_ref::<&str>().map(|s| s.to_string()))
             .unwrap_or_else(|| "<non-string panic>".into());
+        ALL.with(|a| {
+            let mut a = a.borrow_mut();
+            if a.len() < 64 {
+                a.push((loc.clone(), msg.clone()));
+            }
+        });
         LAST.with(|l| *l.borrow_mut() = (loc, msg));
         if verbose {
             default(info);
